@@ -386,6 +386,12 @@ struct World {
     to_node: Vec<Wire>,
     mark_a: usize,
     mark_b: usize,
+    /// the broker routes by SUBSCRIPTION, per connection, clean sessions: the filters each side has
+    /// subscribed on its current connection (cleared when that connection breaks)
+    subs_node: Vec<String>,
+    subs_host: Vec<String>,
+    sub_cur_a: usize,
+    sub_cur_b: usize,
     node_conn: bool,
     host_conn: bool,
     /// the will most recently registered on the node's event loop / the one latched at connect
@@ -451,6 +457,10 @@ impl World {
             to_node: vec![],
             mark_a: 0,
             mark_b: 0,
+            subs_node: vec![],
+            subs_host: vec![],
+            sub_cur_a: 0,
+            sub_cur_b: 0,
             node_conn: false,
             host_conn: true,
             will: None,
@@ -604,16 +614,46 @@ impl World {
                         }
                         let w = Wire { kind: c.kind.clone(), topic: c.topic.clone().into_bytes(), bytes: p.encode_to_vec(), qos1: q.unwrap_or(false), session: self.session };
                         out.count(&format!("broker:from-host:{}", c.kind.name()));
-                        if self.node_conn {
-                            self.to_node.push(w);
-                        } else {
+                        if !self.node_conn {
                             out.count("broker:lost:node-disconnected");
+                        } else if !self.node_subscribed(&c.topic) {
+                            out.count("broker:unrouted:node-not-subscribed");
+                        } else {
+                            self.to_node.push(w);
                         }
                     }
                     _ => out.count(&format!("broker:from-host:{}", c.kind.name())),
                 }
             }
         }
+    }
+
+    /// take note of the SUBSCRIBE requests made since the last look
+    fn refresh_subs(&mut self) {
+        let ca = self.hub_a.calls();
+        for c in &ca[self.sub_cur_a.min(ca.len())..] {
+            if c.kind == Kind::Subscribe {
+                self.subs_node.extend(c.filters.iter().cloned());
+            }
+        }
+        self.sub_cur_a = ca.len();
+        let cb = self.hub_b.calls();
+        for c in &cb[self.sub_cur_b.min(cb.len())..] {
+            if c.kind == Kind::Subscribe {
+                self.subs_host.extend(c.filters.iter().cloned());
+            }
+        }
+        self.sub_cur_b = cb.len();
+    }
+
+    fn host_subscribed(&mut self, topic: &str) -> bool {
+        self.refresh_subs();
+        self.subs_host.iter().any(|f| crate::hostloop::mqtt_match(f, topic))
+    }
+
+    fn node_subscribed(&mut self, topic: &str) -> bool {
+        self.refresh_subs();
+        self.subs_node.iter().any(|f| crate::hostloop::mqtt_match(f, topic))
     }
 
     fn route_from_node(&mut self, out: &mut Out, c: Call) {
@@ -652,10 +692,12 @@ impl World {
             out.fail("LOOP:wire", "node-topic", format!("unexpected topic `{}` of a {} call", c.topic, c.kind.name()));
         }
         let w = Wire { kind: c.kind.clone(), topic: c.topic.clone().into_bytes(), bytes: p.encode_to_vec(), qos1: q.unwrap_or(true), session: self.session };
-        if self.host_conn {
-            self.to_host.push(w);
-        } else {
+        if !self.host_conn {
             out.count("broker:lost:host-disconnected");
+        } else if !self.host_subscribed(&c.topic) {
+            out.count("broker:unrouted:host-not-subscribed");
+        } else {
+            self.to_host.push(w);
         }
     }
 
@@ -756,6 +798,9 @@ impl World {
             Step::NodeOff => {
                 let was = self.node_conn;
                 self.node_conn = false;
+                // clean session: the node's subscriptions go with its connection
+                self.refresh_subs();
+                self.subs_node.clear();
                 if was {
                     // commands on their way to the node are lost with the connection
                     out.count_n("broker:lost:node-disconnected", self.to_node.len() as u64);
@@ -768,10 +813,13 @@ impl World {
                         Some(w) => {
                             let wire = Wire { kind: Kind::NDeath, topic: w.topic.clone().into_bytes(), bytes: w.payload.clone(), qos1: w.qos == QoS::AtLeastOnce, session: self.session };
                             out.count("broker:will-published");
-                            if self.host_conn {
-                                self.to_host.push(wire);
-                            } else {
+                            let wt = String::from_utf8_lossy(&wire.topic).to_string();
+                            if !self.host_conn {
                                 out.count("broker:lost:host-disconnected");
+                            } else if !self.host_subscribed(&wt) {
+                                out.count("broker:unrouted:host-not-subscribed");
+                            } else {
+                                self.to_host.push(wire);
                             }
                         }
                         None => out.fail("LOOP:wire", "no-will", "the node was connected without a registered will".into()),
@@ -788,6 +836,9 @@ impl World {
                     self.to_host.clear();
                 }
                 self.host_conn = false;
+                // clean session: the broker forgets the host's subscriptions with its connection
+                self.refresh_subs();
+                self.subs_host.clear();
                 self.host_line(out, "offline", Some(Event::Offline), 0, None);
             }
             Step::Reg(d) => {
